@@ -182,7 +182,15 @@ func (g *Gen) Positions() []Position {
 
 func (g *Gen) descend(out *[]Position, p Position) {
 	*out = append(*out, p)
-	if len(p.Steps) >= g.MaxSteps {
+	max := g.MaxSteps
+	// the defaults probe (Query.def*): its point is the omitted siblings, not deep descent
+	switch {
+	case p.Field.Name == "defIn" || p.Field.Name == "defIns" || p.Field.Name == "defNull":
+		max = 1
+	case strings.HasPrefix(p.Field.Name, "def"):
+		max = 0
+	}
+	if len(p.Steps) >= max {
 		return
 	}
 	with := func(s Step, t *ast.Type, def bool) Position {
@@ -491,6 +499,12 @@ func (g *Gen) Cases(p Position, reduced bool) []Case {
 	// small alphabet for the default-value / non-null-variable variants
 	small := []LVal{alpha[0], alpha[1], {"good", "valid", g.Good(p.Type, 1)}, {`"abc"`, "string", vStr("abc")}, {"1.5", "float", Val{K: "float", Raw: "1.5"}}, {"{}", "empty-object", vObj()}}
 
+	// positions under the def* fields (defaults probe) get the small alphabet: what matters
+	// there is that every OTHER field / argument is omitted and must arrive as its default
+	tiny := strings.HasPrefix(p.Field.Name, "def")
+	if tiny {
+		alpha = small
+	}
 	nestedVarOK := len(p.Steps) > 0 && !p.Steps[len(p.Steps)-1].Single
 	for _, lv := range alpha {
 		// (a) literal
@@ -519,10 +533,29 @@ func (g *Gen) Cases(p Position, reduced bool) []Case {
 			}
 		}
 	}
-	if reduced {
+	if reduced || tiny {
 		return out
 	}
-	// variable default values: `$v: T = D`
+	// variable default values `$v: T = D`, D in every literal form of the kind: with the
+	// variable not provided (every carrier) and explicitly null
+	{
+		for _, form := range g.DefaultForms(p.Type) {
+			for _, lv := range small[:2] {
+				vars := "{}"
+				if lv.V.K != "absent" {
+					vars = `{"v":` + lv.V.JSON() + `}`
+				}
+				flv := LVal{lv.Label + " [default " + form + "]", lv.Class, lv.V}
+				if len(p.Steps) == 0 {
+					emit("variable-default-form", flv, "query($v: "+p.Arg.Type.String()+" = "+form+") { "+g.field(p, "$v")+" }", vars)
+				} else if nestedVarOK {
+					if av, ok := g.Wrap(p.Arg.Type, p.Steps, Val{K: "var", Raw: "v"}); ok {
+						emit("nested-variable-default-form", flv, "query($v: "+p.Type.String()+" = "+form+") { "+g.field(p, av.Literal())+" }", vars)
+					}
+				}
+			}
+		}
+	}
 	dflt := g.Good(p.Type, 0)
 	nullable := *p.Type
 	nullable.NonNull = false
@@ -568,6 +601,74 @@ func (g *Gen) Cases(p Position, reduced bool) []Case {
 	return out
 }
 
+// DefaultForms lists default-value literals for type t in every form the grammar allows
+// for the kind: Float as integer / negative / exponent / fraction literal, ID as integer
+// and as string, lists empty / mixed forms / with null / as a single value (list coercion
+// inside a default), input objects minimal and with an optional field, and null.
+func (g *Gen) DefaultForms(t *ast.Type) []string {
+	var out []string
+	if t.Elem != nil {
+		ef := g.DefaultForms(t.Elem)
+		var plain []string
+		for _, f := range ef {
+			if f != "null" {
+				plain = append(plain, f)
+			}
+		}
+		out = append(out, "[]", "["+strings.Join(plain, ", ")+"]", plain[0])
+		if !t.Elem.NonNull {
+			out = append(out, "["+plain[0]+", null]")
+		}
+	} else {
+		def := g.Schema.Types[t.NamedType]
+		switch {
+		case def.Kind == ast.Enum:
+			for _, ev := range def.EnumValues {
+				out = append(out, ev.Name)
+			}
+		case def.Kind == ast.InputObject:
+			min := g.minimalObject(def, 0)
+			out = append(out, min.Literal())
+			for _, f := range def.Fields {
+				if !f.Type.NonNull {
+					ff := g.DefaultForms(f.Type)
+					out = append(out, vObj(append(append([]FVal(nil), min.Fields...), FVal{f.Name, Val{K: "enum", Raw: ff[0]}})...).Literal())
+					break
+				}
+			}
+		default:
+			switch def.Name {
+			case "Float", "F":
+				out = append(out, "0", "2", "-3", "1e3", "2.5")
+			case "Int", "I64":
+				out = append(out, "0", "-7", "2147483647")
+			case "I32":
+				out = append(out, "0", "-2147483648")
+			case "U", "U32", "U64":
+				out = append(out, "0", "7")
+			case "IntID":
+				out = append(out, "3", `"4"`, "-5")
+			case "UintID":
+				out = append(out, "0", `"6"`)
+			case "ID":
+				out = append(out, "5", `"abc"`, `""`)
+			case "Boolean":
+				out = append(out, "true", "false")
+			case "String":
+				out = append(out, `""`, `"x"`)
+			case "Lit":
+				out = append(out, "1", "1.5", `"s"`, "true", "RED")
+			default:
+				panic("DefaultForms: " + def.Name)
+			}
+		}
+	}
+	if !t.NonNull {
+		out = append(out, "null")
+	}
+	return out
+}
+
 // Corpus: hand-written requests that combine several arguments / aliases.
 func Corpus() []Case {
 	mk := func(q, vars string) Case {
@@ -590,6 +691,18 @@ func Corpus() []Case {
 		mk(`{ omit(x: {o: null, os: null, oInner: null}) }`, ""),
 		mk(`{ omit(x: {o: 1, os: 2, oInner: {req: 1}, oStr: "s"}) }`, ""),
 		mk(`{ omit(x: {}) }`, ""),
+		// defaults probe: everything omitted, so every default of every form must arrive
+		mk(`{ defArgs }`, ""),
+		mk(`{ defIn(x: {}) }`, ""),
+		mk(`{ defInDefault }`, ""),
+		mk(`{ defNull(x: {}) }`, ""),
+		mk(`query($v: NullDef) { defNull(x: $v) }`, `{"v":{}}`),
+		mk(`{ defIns(x: {}) }`, ""),
+		mk(`query($v: DefIn = {}) { defIn(x: $v) }`, ""),
+		mk(`query($v: DefIn) { defIn(x: $v) }`, `{"v":{}}`),
+		mk(`query($v: DefIn) { defIn(x: $v) }`, `{"v":{"nested":{},"nesteds":[{}, {"f":null}]}}`),
+		mk(`{ defIn(x: {nested: {}, nesteds: [{}, {f: null}], fInt0: null, fl: null}) }`, ""),
+		mk(`{ defArgs(fInt0: null, fl: null, nested: {}, flSingle: 4) }`, ""),
 		// operations that declare variables, sent without any variables carrier
 		mk(`query($a: Int = 4, $b: String = "vb", $c: [Int] = [7]) { multi(a: $a, b: $b, c: $c) }`, ``),
 		mk(`query($a: Int = 4, $b: String = "vb", $c: [Int] = [7]) { multi(a: $a, b: $b, c: $c) }`, `null`),
